@@ -136,15 +136,21 @@ var intervals = []int64{1e9, 1e9, 10e9, 100e6, 1500e6, 60e9, 1, 333333333}
 func genCase(r *hlib.Rand, i int) input {
 	in := input{Exact: i%2 == 0}
 	n := genN(r)
+	// general regime: the datapoints of one series use at most three distinct sample rates (a client
+	// samples a metric at one rate); the exact rational sum of 1/rate then stays small in Coq
+	palette := make([]float64, []int{1, 1, 1, 2, 2, 3}[r.Intn(6)])
+	for j := range palette {
+		palette[j] = hlib.Pick(r, generalRates)
+		if r.Chance(1, 4) {
+			palette[j] = r.Float()*0.999 + 0.001
+		}
+	}
 	for j := 0; j < n; j++ {
 		var v, rate float64
 		if in.Exact {
 			v, rate = genExactValue(r), hlib.Pick(r, exactRates)
 		} else {
-			v, rate = genGeneralValue(r), hlib.Pick(r, generalRates)
-			if r.Chance(1, 8) {
-				rate = (r.Float()*0.999 + 0.001)
-			}
+			v, rate = genGeneralValue(r), hlib.Pick(r, palette)
 		}
 		if j > 0 && r.Chance(1, 5) { // duplicates
 			v = math.Float64frombits(in.Points[r.Intn(j)].V)
